@@ -88,7 +88,7 @@ def set_(doc, path, value, delete=False):
         node[path[-1]] = value
 
 
-RETYPES = [None, "str", "", 0, -1, 65536, 18446744073709551616, 1.5, True, [], ["x"], {}, {"x": 1}, "x" * 70000, "\u0000", "127.0.0.1:99999", "not-an-address"]
+RETYPES = [None, "str", "", 0, -1, 65536, 18446744073709551615, 9223372036854775807, 18446744073709551616, 1.5, True, [], ["x"], {}, {"x": 1}, "x" * 70000, "\u0000", "127.0.0.1:99999", "not-an-address"]
 
 
 def structural_mutants(rng, name, doc, limit):
@@ -279,7 +279,7 @@ async def probe_started(out, binary, wd, idx, desc, doc, oport, cls):
 
 
 async def main(args):
-    out = Out("C18", "c18", "configuration documents obtained from two valid seeds (an equivalent of the shipped config.yaml and a small harness config) by deleting / retyping (17 replacement values) / duplicating every field, plus targeted mutants: listener/connector type and name, duplicate names, balancer graphs (empty, missing, self, cycles, diamond), rule filters (syntax, type, arity, tuple index, run-time errors, nesting depth 10..100000), access-log formats, TLS material; each judged by `redproxy-rs --test`; accepted ones started and probed; arbitrary JSON posted to /api/rules. distinct = distinct mutants")
+    out = Out("C18", "c18", "configuration documents obtained from two valid seeds (an equivalent of the shipped config.yaml and a small harness config) by deleting / retyping (19 replacement values) / duplicating every field, plus targeted mutants: listener/connector type and name, duplicate names, balancer graphs (empty, missing, self, cycles, diamond), rule filters (syntax, type, arity, tuple index, run-time errors, nesting depth 10..100000), access-log formats, TLS material; each judged by `redproxy-rs --test`; accepted ones started and probed; arbitrary JSON posted to /api/rules. distinct = distinct mutants")
     rng = random.Random(args.seed)
     wd = workdir("c18")
     origin = await TcpOrigin(echo_handler, host="127.0.0.1").start()
@@ -333,7 +333,7 @@ async def main(args):
     rng.shuffle(accepted)
     # targeted mutants first, then everything that touches the sections only used when the proxy really starts (metrics server,
     # access log), then a sample of the rest
-    prio = [a for a in accepted if a[3] not in ("retype", "delete", "duplicate") or ": metrics/" in a[1] or ": accessLog/" in a[1]]
+    prio = [a for a in accepted if a[3] not in ("retype", "delete", "duplicate") or ": metrics/" in a[1] or ": accessLog/" in a[1] or ": timeouts/" in a[1] or ": ioParams/" in a[1]]
     rest = [a for a in accepted if a not in prio]
     todo = prio + rest[:(300 if args.thorough else 25)]
     sem2 = asyncio.Semaphore(8)
